@@ -176,6 +176,24 @@ func runC29(c *fw.Ctx) {
 		{"Pull(fast-forward) with an unstaged edit", "Pull", dirtyA, func(r *git.Repository, w *mcfs.World) error {
 			return wtOf(r).Pull(&git.PullOptions{RemoteName: "origin", ClientOptions: []client.Option{mcLoader(w)}})
 		}},
+		{"Pull(fast-forward, already fetched) with an unstaged edit", "Pull", func(w *mcfs.World) {
+			dirtyA(w)
+			r, _, _ := openRepo(w, "/wt/.git", "/wt")
+			if err := r.Fetch(&git.FetchOptions{RemoteName: "origin", ClientOptions: []client.Option{mcLoader(w)}}); err != nil {
+				fw.Abort("prep fetch: %v", err)
+			}
+		}, func(r *git.Repository, w *mcfs.World) error {
+			return wtOf(r).Pull(&git.PullOptions{RemoteName: "origin", ClientOptions: []client.Option{mcLoader(w)}})
+		}},
+		{"Pull(non fast-forward, already fetched)", "Pull", func(w *mcfs.World) {
+			diverge(w)
+			r, _, _ := openRepo(w, "/wt/.git", "/wt")
+			if err := r.Fetch(&git.FetchOptions{RemoteName: "origin", ClientOptions: []client.Option{mcLoader(w)}}); err != nil {
+				fw.Abort("prep fetch: %v", err)
+			}
+		}, func(r *git.Repository, w *mcfs.World) error {
+			return wtOf(r).Pull(&git.PullOptions{RemoteName: "origin", ClientOptions: []client.Option{mcLoader(w)}})
+		}},
 		{"Pull(fast-forward) clean", "Pull", nil, func(r *git.Repository, w *mcfs.World) error {
 			return wtOf(r).Pull(&git.PullOptions{RemoteName: "origin", ClientOptions: []client.Option{mcLoader(w)}})
 		}},
@@ -186,7 +204,7 @@ func runC29(c *fw.Ctx) {
 		names = append(names, s.name)
 	}
 	c.Bound("scenarios", names)
-	c.SetRule("23 porcelain scenarios (checkout / checkout -b / reset merge|keep|hard / commit / add / restore / merge / pull, each engineered to be refused, plus successful counterparts) on a git-written repository over mcfs; each is run (a) as is and (b) once per filesystem call of the operation with that call failing (EIO; every mutating call and every open/stat of a worktree file): whenever the call returns an error, HEAD, every reference, the decoded index and the content of every tracked worktree file are compared with the state before the call; distinct = (scenario, fault site, outcome) classes")
+	c.SetRule("25 porcelain scenarios (checkout / checkout -b / reset merge|keep|hard / commit / add / restore / merge / pull, each engineered to be refused, plus successful counterparts) on a git-written repository over mcfs; each is run (a) as is and (b) once per filesystem call of the operation with that call failing (EIO; every mutating call and every open/stat of a worktree file): whenever the call returns an error, HEAD, every reference, the decoded index and the content of every tracked worktree file are compared with the state before the call; distinct = (scenario, fault site, outcome) classes")
 	c.Assume("one injected fault per run (thorough: also every pair of faults for operations with <= 60 fault sites); objects written before a failure are not part of the statement (only HEAD, branches, index, tracked files)")
 	type job struct {
 		si    int
